@@ -296,8 +296,14 @@ class FunctionAnalysis:
         if g is not None and g.op == "getelementptr" and not g["idx"] and g["base"].get("k") == "inst":
             # table[row][constant column] is two address computations: the outer one selects the column by a constant offset
             g0 = self.fn.resolve(g["base"])
+            if g0 is not None and g0.op == "load":
+                # `const row_t *const row = &table[k]; ... row->field`
+                g0 = self.fn.resolve(rules.resolve_local(self.fn, g["base"]))
             if g0 is not None and g0.op == "getelementptr" and g0["idx"] and g0["base"].get("k") == "global":
                 col = g["off"] // max(1, g.get("ressize") or 1)
+                for e in (g.get("path") or []):
+                    if isinstance(e, dict) and "f" in e:
+                        col = e["f"]
                 g = g0
         if g is None or g.op != "getelementptr" or g["base"].get("k") != "global" or not g["idx"]:
             return None
